@@ -32,6 +32,7 @@ func (t *verifTrapTask) Run() {
 // advances by arbitrary amounts: the task never runs twice within one
 // interval and never concurrently with itself.
 func VerifIntervalTrapOncePerInterval() {
+	verif.Option("panic_is_violation", 1) // a panic must never end a path silently
 	verif.Option("max_preempt", verif.Bound("preemptions", 1, 3))
 	const interval = 10 * time.Second
 	clk := clock.NewMock()
